@@ -248,6 +248,58 @@ theorem committed_prefix_in_later_leaders (c : Config) (steps : List Step) (i : 
     rw [htk]
     exact take_of_take_eq _ _ N a.commit hN hlc
 
+/-- **State Machine Safety over time** — the property as stated: once some node has reported a
+    position committed (at the state after `steps1`), no node at that moment or at any later one
+    (after any further `steps2`: crashes, new elections, anything) reports a different entry
+    committed at that position. -/
+theorem state_machine_safety_over_time (c : Config) (steps1 steps2 : List Step) (i j : Nat)
+    (a b : Node) (ha : (run c (initSys c) steps1).nodes[i]? = some a)
+    (hb : (run c (initSys c) (steps1 ++ steps2)).nodes[j]? = some b)
+    (k : Nat) (hka : k < a.commit) (hkb : k < b.commit) :
+    a.log[k]? = b.log[k]? ∧ ∃ e, a.log[k]? = some e := by
+  obtain ⟨hI1, hL1, hC1, hE1, _, hG1⟩ := reachable_invariants c steps1
+  obtain ⟨hI2, hL2, hC2, hE2, hF2, hG2⟩ := reachable_invariants c (steps1 ++ steps2)
+  rw [run_append] at hb hI2 hL2 hC2 hE2 hF2 hG2
+  obtain ⟨Ta, Na, hDa, _, hNa, htka⟩ := hG1.commitOk i a ha (by omega)
+  obtain ⟨hDa2, hcan⟩ := durable_run c _ steps2 hI1 hL1 hC1 hE1 Ta Na hDa
+  obtain ⟨Tb, Nb, hDb, _, hNb, htkb⟩ := hG2.commitOk j b hb (by omega)
+  have htka2 : a.log.take a.commit =
+      ((run c (run c (initSys c) steps1) steps2).canon Ta).take a.commit := by
+    rw [htka]; exact (take_of_take_eq _ _ Na a.commit hNa hcan).symm
+  exact prefix_agree c _ hI2 hL2 hC2 hE2 hF2 a.log b.log a.commit b.commit k hka hkb
+    Ta Na Tb Nb hDa2 hDb hNa hNb htka2 htkb
+
+/-- **every later leader's log contains every committed entry**: whatever node `i` had committed
+    after `steps1` is a prefix of the log of any node that is leader, at that moment or at any
+    later one, in a term not below `i`'s term at the time. -/
+theorem later_leader_has_committed_entries (c : Config) (steps1 steps2 : List Step) (i l : Nat)
+    (a nl : Node) (ha : (run c (initSys c) steps1).nodes[i]? = some a)
+    (hl : (run c (initSys c) (steps1 ++ steps2)).nodes[l]? = some nl)
+    (hrole : nl.role = .leader) (hterm : a.term ≤ nl.term) :
+    nl.log.take a.commit = a.log.take a.commit := by
+  obtain ⟨hI1, hL1, hC1, hE1, _, hG1⟩ := reachable_invariants c steps1
+  obtain ⟨hI2, hL2, hC2, hE2, hF2, _⟩ := reachable_invariants c (steps1 ++ steps2)
+  rw [run_append] at hl hI2 hL2 hC2 hE2 hF2
+  rcases Nat.eq_zero_or_pos a.commit with h0 | hpos
+  · rw [h0]; simp
+  · obtain ⟨Ta, Na, hDa, hTa, hNa, htka⟩ := hG1.commitOk i a ha hpos
+    obtain ⟨hDa2, hcan⟩ := durable_run c _ steps2 hI1 hL1 hC1 hE1 Ta Na hDa
+    have hNale := durable_le c _ Ta Na hDa2
+    obtain ⟨vs, hvs⟩ := hL2.leaderElected l nl hl hrole
+    have hlog := hL2.leaderCanon l nl hl hrole
+    have hpre : ((run c (run c (initSys c) steps1) steps2).canon nl.term).take Na =
+        ((run c (run c (initSys c) steps1) steps2).canon Ta).take Na := by
+      by_cases heq : Ta = nl.term
+      · rw [heq]
+      · have hlc := leader_completeness_of_inv c _ hI2 hL2 hC2 hE2 hF2 Ta Na hDa2
+          nl.term l vs hvs (by omega)
+        obtain ⟨y, hy, _⟩ := (hE2.elogOk nl.term l vs hvs).ext
+        have hNel := le_length_of_take_eq _ _ _ hNale hlc
+        rw [hy, List.take_append_of_le_length hNel]; exact hlc
+    rw [hlog, htka]
+    rw [take_of_take_eq _ _ Na a.commit hNa hpre]
+    exact take_of_take_eq _ _ Na a.commit hNa hcan
+
 /-- the commit rule: whenever any node's commit index is positive it lies inside a prefix
     acknowledged by a quorum whose last entry carries the acknowledging term -/
 theorem commit_is_quorum_backed (c : Config) (steps : List Step) (i : Nat) (a : Node)
